@@ -32,6 +32,42 @@ pub fn run(r: &mut Report) {
     let p3 = format!("{}/c/", root);
     let got = no_panic(|| record_artifacts(&[sub.to_str().unwrap(), d.path().join("c").to_str().unwrap()], None, Some(&[p2.as_str(), p3.as_str()])));
     r.case("duplicate-key-is-an-error", json!({"files": ["a/b/x", "c/x"], "strip": ["a/b/", "c/"]}), "Err", format!("{:?}", got.as_ref().map(|x| x.as_ref().map(|m| m.len()).map_err(|e| e.to_string()))), matches!(&got, Ok(Err(_))));
+    // the chosen strip prefix is removed ONCE, from the front: directories nested in a directory of the same name keep their inner
+    // components (oracle: the path text minus the longest given prefix it starts with)
+    {
+        let t = crate::fixture::tmpdir();
+        let root = t.path().to_str().unwrap().to_string();
+        let files = ["build/build/cache.o", "build/app", "build/build/build/deep", "aa/aa/aa/f", "aa/g", "ab/ab", "x/y/x/y/z"];
+        for f in files { let p = t.path().join(f); std::fs::create_dir_all(p.parent().unwrap()).unwrap(); std::fs::write(&p, f).unwrap(); }
+        for prefixes in [vec!["build/"], vec!["aa/"], vec!["aa/", "aa/aa/"], vec!["x/y/"], vec!["a"], vec!["build/", "aa/", "ab/", "x/"], vec![""]] {
+            let full: Vec<String> = prefixes.iter().map(|p| format!("{}/{}", root, p)).collect();
+            let refs: Vec<&str> = full.iter().map(|x| x.as_str()).collect();
+            let got = no_panic(|| record_artifacts(&[root.as_str()], None, Some(&refs)));
+            let mut want: Vec<String> = files.iter().map(|f| { let p = format!("{}/{}", root, f);
+                let best = full.iter().filter(|l| p.starts_with(l.as_str())).max_by_key(|l| l.len());
+                match best { Some(l) => p[l.len()..].to_string(), None => p } }).collect();
+            want.sort();
+            let unique = { let mut u = want.clone(); u.dedup(); u.len() == want.len() };
+            let have: Option<Vec<String>> = match &got { Ok(Ok(m)) => { let mut v: Vec<String> = m.keys().map(|k| k.value().to_string()).collect(); v.sort(); Some(v) } _ => None };
+            let ok = if unique { have.as_ref() == Some(&want) } else { matches!(&got, Ok(Err(_))) };
+            r.case("strip-prefix-removed-once", json!({"strip": prefixes, "tree": files}), &if unique { format!("{:?}", want) } else { "Err (two files would share a key)".to_string() }, format!("{:?}", have), ok);
+        }
+        // the same with RELATIVE arguments and prefixes (recorded from inside the directory), where a prefix can repeat at the very
+        // front of what is left after removing it
+        for prefixes in [vec!["build/"], vec!["aa/"], vec!["aa/", "aa/aa/"], vec!["x/y/"], vec!["a"], vec!["build/", "aa/", "ab/", "x/"], vec!["build/build/"], vec!["x/", "x/y/x/"]] {
+            let _g = crate::c08::CWD_LOCK.lock().unwrap();
+            let old = std::env::current_dir().unwrap();
+            std::env::set_current_dir(t.path()).unwrap();
+            let got = no_panic(|| record_artifacts(&["build", "aa", "ab", "x"], None, Some(&prefixes)));
+            std::env::set_current_dir(old).unwrap();
+            let mut want: Vec<String> = files.iter().map(|f| { let best = prefixes.iter().filter(|l| f.starts_with(**l)).max_by_key(|l| l.len()); match best { Some(l) => f[l.len()..].to_string(), None => f.to_string() } }).collect();
+            want.sort();
+            let unique = { let mut u = want.clone(); u.dedup(); u.len() == want.len() };
+            let have: Option<Vec<String>> = match &got { Ok(Ok(m)) => { let mut v: Vec<String> = m.keys().map(|k| k.value().to_string()).collect(); v.sort(); Some(v) } _ => None };
+            let ok = if unique { have.as_ref() == Some(&want) } else { matches!(&got, Ok(Err(_))) };
+            r.case("strip-prefix-removed-once-relative", json!({"strip": prefixes, "tree": files}), &if unique { format!("{:?}", want) } else { "Err (two files would share a key)".to_string() }, format!("{:?} {:?}", have, got.as_ref().map(|x| x.as_ref().map(|_| ()).map_err(|e| e.to_string()))), ok);
+        }
+    }
     trees(r);
     run_step_before_after(r);
     run_step_content_oracle(r);
